@@ -23,7 +23,7 @@ structure LibTab where
   d : List (Text × Option Text) := []
   u : List (List Nat × Text) := []
   s : List (Bytes × Text) := []
-  h : List ((Text × Text) × Bool) := []
+  h : List ((Text × Text) × Option Bool) := []
 
 def parseLibEntry (t : LibTab) (e : String) : Option LibTab :=
   match e.splitOn ":" with
@@ -39,7 +39,7 @@ def parseLibEntry (t : LibTab) (e : String) : Option LibTab :=
     pure { t with s := (k, v) :: t.s }
   | ["h", a, b, v] => do
     let a ← parseCps a; let b ← parseCps b
-    pure { t with h := ((a, b), v = "1") :: t.h }
+    pure { t with h := ((a, b), if v = "!" then none else some (v = "1")) :: t.h }
   | _ => none
 
 def parseLib (s : String) : Option LibTab :=
@@ -57,8 +57,12 @@ def mkLib (t : LibTab) (alt : Bool) : Lib where
     | some r => r
     | none => if alt then [0x110000] else []
   hashOk := fun a b => match t.h.lookup (a, b) with
-    | some r => r
+    | some (some r) => r
+    | some none => false
     | none => alt
+  hashRaises := fun a b => match t.h.lookup (a, b) with
+    | some none => true
+    | _ => false
 
 def parseMode : String → Option Mode
   | "regular" => some .regular
@@ -68,7 +72,7 @@ def parseMode : String → Option Mode
   | "socks5" => some .socks5
   | _ => none
 
-def parseVal (s : String) : Option (Option Validator) :=
+def parseVal0 (s : String) : Option (Option Validator) :=
   if s = "none" then some none
   else if s = "any" then some (some .any)
   else match s.splitOn ":" with
@@ -79,6 +83,19 @@ def parseVal (s : String) : Option (Option Validator) :=
         | _ => none)
       pure (some (.table es))
     | _ => none
+
+/-- `<validator>` or `<validator>;raise;<u>=<p>,<u>=<p>` (fault injection: the validator raises on these pairs) -/
+def parseVal (s : String) : Option (Option Validator) :=
+  match s.splitOn ";" with
+  | [v] => parseVal0 v
+  | [v, "raise", ps] => do
+    let inner ← parseVal0 v
+    let inner ← inner
+    let bad ← (ps.splitOn ",").mapM (fun e => match e.splitOn "=" with
+      | [u, p] => do let u ← parseCps u; let p ← parseCps p; pure (u, p)
+      | _ => none)
+    pure (some (.raising bad inner))
+  | _ => none
 
 def parseHdrs (s : String) : Option (List Hdr) :=
   if s = "-" then some [] else
